@@ -18,14 +18,17 @@ Lemma raw_option_shape ty ln v ob :
   u8 ln < 32 -> SendNdp.raw_option ty ln v = Some ob ->
   ob = [u8 ty; u8 ln] ++ v /\ (8 * N.to_nat (u8 ln) = 2 + length v)%nat.
 Proof.
+  (* written to hold for both forms of the size computation in SEND's model: N.to_nat (u8 (len * 8)) (the
+     library's uint8 product, before the repair of RawOption.marshal) and N.to_nat (8 * u8 len) (after) *)
   intros Hl. unfold SendNdp.raw_option.
-  destruct (Nat.eqb_spec (2 + length v) (N.to_nat (u8 (ln * 8)))) as [E|E]; [|discriminate].
-  intros H. injection H as <-. split; [reflexivity|].
-  assert (u8 (ln * 8) = 8 * u8 ln).
+  assert (W : u8 (ln * 8) = 8 * u8 ln).
   { unfold u8 in *. rewrite (N.div_mod ln 256) at 1 by discriminate.
     replace ((256 * (ln / 256) + ln mod 256) * 8) with (ln mod 256 * 8 + (ln / 256 * 8) * 256) by lia.
     rewrite N.mod_add by discriminate. rewrite N.mod_small by lia. lia. }
-  blia.
+  cbv zeta.
+  match goal with |- context [Nat.eqb ?a ?b] => destruct (Nat.eqb_spec a b) as [E|E]; [|discriminate] end.
+  intros H. injection H as <-. split; [reflexivity|].
+  rewrite ?W in E. blia.
 Qed.
 
 Lemma nd_options_rt_fuel (l : list raw3) : forall fuel ob,
